@@ -27,6 +27,8 @@ REQUIRED_THEOREMS = [
     "C05_text_control_after_plain",
     "C05_text_productions",
     "C05_malformed_text",
+    "C05_empty_body",
+    "C05_text_empty_malformed",
     "C05_invalid",
     "C05_invalid_toplevel",
     "C05_fault_answer",
@@ -57,7 +59,7 @@ REQUIRED_THEOREMS = [
     "C05_gen_handlersOnlyReport",
     "C05_gen_methodUnmodified",
     "C05_gen_stdlibLoadsPlain",
-    "C05_gen_loadsEmptyIsNone",
+    "C05_gen_emptyBodyRejectedInParseTry",
     "C05_gen_loadsParsesWholeBody",
 ]
 
@@ -234,6 +236,51 @@ def gate_check(ctx):
     ctx.traces_validated += len(lines)
 
 
+EMPTY_BODIES = [("str", ""), ("bytes", b""), ("bytearray", bytearray())]
+
+
+def _empty_body_verdict(kind, reg, ver, custom_ok=True):
+    """The empty body handed to the real `_marshaled_dispatch` as str / bytes / bytearray, and through do_POST with
+    Content-Length 0: a single -32700 error object, nothing invoked.  Returns (message or None, details)."""
+    data = dict(EMPTY_BODIES)[kind]
+    real = sc.Real(sc.REGISTRIES[reg], ver, False, "absent")
+    k, v = impl.outcome(real.disp._marshaled_dispatch, data, real.custom)
+    if k == "err":
+        return "the dispatcher raised %s: %s on the empty %s body" % (type(v).__name__, str(v)[:120], kind), repr(v)
+    m = None
+    try:
+        d = json.loads(v)
+    except (ValueError, TypeError):
+        d = None
+    code = d.get("error", {}).get("code") if isinstance(d, dict) and isinstance(d.get("error"), dict) else None
+    if code != -32700:
+        m = "the empty %s body is rejected by RFC 8259: it must be answered with a single -32700 error object, the reply is %r" % (kind, v[:200] if isinstance(v, str) else v)
+    elif real.log:
+        m = "empty %s body, yet something was invoked: %r" % (kind, real.log[:2])
+    if m is None and kind == "str":
+        real2 = sc.Real(sc.REGISTRIES[reg], ver, False, "absent")
+        try:
+            status, body, _h = real2.post("")
+            dd = json.loads(body.decode("utf-8")) if body else None
+            c2 = dd.get("error", {}).get("code") if isinstance(dd, dict) and isinstance(dd.get("error"), dict) else None
+            if c2 != -32700 or real2.log:
+                m = "do_POST with an empty body (Content-Length 0): status %r, body %r, invoked %r" % (status, body[:200], real2.log[:2])
+        except Exception as ex:  # noqa: BLE001
+            m = "do_POST raised %s on an empty body" % type(ex).__name__
+    return m, v
+
+
+def empty_body_check(ctx):
+    for kind, _data in EMPTY_BODIES:
+        for reg in ("funcs", "custom", "instdisp", "empty"):
+            for ver in (1.0, 2.0):
+                m, _v = _empty_body_verdict(kind, reg, ver)
+                if m:
+                    ctx.violate({"empty_body": kind, "body": "" if kind == "str" else repr(dict(EMPTY_BODIES)[kind]), "registry": reg, "ver": ver},
+                                "codes: " + m, key="empty-body:%s:%s" % (kind, m[:40]))
+                ctx.count(kind="empty-body/" + kind, nontrivial_key=("empty-body", kind, reg, ver))
+
+
 def run(ctx):
     em = {"translated": 0.3, "structid": 0.3, "malformed": 0.35, "textlayer": True, "single": 1.6, "batch": 0.8, "damaged": 0.6, "descriptor": 0.8, "noise": 0.5, "pool": 0.4, "randreg": 2.5, "post": 0.02,
           "exhaustive_single": True}
@@ -242,6 +289,7 @@ def run(ctx):
     resolve_differential(ctx)
     client_monitor(ctx)
     gate_check(ctx)
+    empty_body_check(ctx)
 
 
 def search(ctx):
@@ -251,6 +299,11 @@ def search(ctx):
 
 def replay(payload):
     case = payload.get("case") or {}
+    if case.get("empty_body"):
+        m, v = _empty_body_verdict(case["empty_body"], case["registry"], case["ver"])
+        print("empty %s body -> %r" % (case["empty_body"], v))
+        print(("VIOLATION reproduced: " + m) if m else "no violation on this input")
+        return 1 if m else 0
     if case.get("client"):
         c = sc.make_case(sc.REGISTRIES[case["registry"]], "", ver=case["ver"], uj=False)
         tamper = None
